@@ -58,3 +58,14 @@ Theorem C20_nonvacuous :
   List.length (snd (run start0 ex_ops)) = 19%nat /\ fst (spec_run ([], 10%Z) ex_ops) = [F 5].
 Proof. exact example_ok. Qed.
 Print Assumptions C20_nonvacuous.
+
+(* saved settings: for EVERY history of sessions (each a list of setq's of watched variables), a session starts
+   with, for every variable, the value last set in any earlier session (or the default if it never was):
+   the rewrite-all-marked-variables scheme of updateConfigFile loses nothing because evaluating config.lisp
+   at start-up marks every variable in it again (C20/Settings.v; the comparison with real REPL processes is
+   run on every check) *)
+From C20 Require Import Settings.
+Theorem C20_settings_persist : forall sessions k,
+  look (vals (m_start (fold_left m_session sessions m_init))) k = look (fold_left s_session sessions []) k.
+Proof. exact settings_persist. Qed.
+Print Assumptions C20_settings_persist.
